@@ -28,6 +28,8 @@ DRIVERS = [
     (r"wallet\.Restore$", r"callsite:storage\.WalletDB\.IncrementKeysetCounter|shape:", "wallet", WALLET_FILES, "TestVerifReplay_RestoreCounter", None),
     (r"wallet\.Wallet\)\.swapToTrusted$", r"callsite:wallet\.Wallet\.swapProofs@sigallpath|pre:wallet\.Wallet\.swapProofs", "wallet", WALLET_FILES, "TestVerifReplay_SwapToTrustedReusesCounters", None),
     (r"wallet\.Wallet\)\.(Receive|ReceiveHTLC|ReclaimUnspentProofs)$", r"post@past|callsite:storage\.WalletDB\.IncrementKeysetCounter@count", "wallet", WALLET_FILES, "TestVerifReplay_ReceiveAdvancesCounter", None),
+    (r"wallet\.Wallet\)\.AddMint$", r"callsite:storage\.WalletDB\.SaveKeyset@keepscounter|post@samecounters|inv-", "wallet", WALLET_FILES, "TestVerifReplay_AddMintKeepsCounter", None),
+    (r"wallet\.Wallet\)\.(CheckMeltQuoteState|Melt)$", r"@changekeyset|@changecount|@changesrc", "wallet", WALLET_FILES, "TestVerifReplay_PendingMeltChangeCounter", None),
     (r"wallet/client\.PostSwap$", r"callsite:json\.Marshal@nodleq", "wallet/client", CLIENT_FILES, "TestVerifReplay_SwapRequestCarriesDLEQ", None),
     (r"wallet/client\.PostMeltBolt11$", r"callsite:json\.Marshal@nodleq", "wallet/client", CLIENT_FILES, "TestVerifReplay_MeltRequestCarriesDLEQ", None),
     (r"mint\.Mint\)\.Swap$", r"boundary@", "mint", MINT_FILES, "TestVerifReplay_SwapCrashPoint", None),
